@@ -154,6 +154,38 @@ class _Canon(ast.NodeTransformer):
             return n.value.elts[n.slice.value]
         return n
 
+    def _expand_comp(self, n):
+        """(E(x) for x in (a, b, c))  ->  (E(a), E(b), E(c))   for a short literal of pure items, no filter"""
+        if len(n.generators) != 1 or n.generators[0].ifs or n.generators[0].is_async:
+            return n
+        g = n.generators[0]
+        if not isinstance(g.iter, (ast.Tuple, ast.List)) or not (1 <= len(g.iter.elts) <= 8) or not isinstance(g.target, ast.Name):
+            return n
+        if not all(isinstance(e, ast.Constant) for e in g.iter.elts):
+            return n
+        var = g.target.id
+        if any(isinstance(x, ast.Name) and x.id == var and isinstance(x.ctx, ast.Store) for x in ast.walk(n.elt)):
+            return n
+        elts = []
+        for e in g.iter.elts:
+            class S(ast.NodeTransformer):
+                def visit_Name(self, nm, e=e):
+                    if nm.id == var and isinstance(nm.ctx, ast.Load):
+                        return ast.copy_location(clone(e), nm)
+                    return nm
+            elts.append(S().visit(clone(n.elt)))
+        self.stats['canon_comp_expanded'] = self.stats.get('canon_comp_expanded', 0) + 1
+        new = ast.Tuple(elts=elts, ctx=ast.Load()) if isinstance(n, ast.GeneratorExp) else ast.List(elts=elts, ctx=ast.Load())
+        return self.visit(ast.copy_location(new, n))
+
+    def visit_GeneratorExp(self, n):
+        self.generic_visit(n)
+        return self._expand_comp(n)
+
+    def visit_ListComp(self, n):
+        self.generic_visit(n)
+        return self._expand_comp(n)
+
     def visit_IfExp(self, n):
         self.generic_visit(n)
         # a conditional expression whose test is a literal (left behind by inlining a helper called with a constant flag)
@@ -1516,6 +1548,63 @@ def forward_temps(fn, stats):
                 break
 
 
+def coalesce_aliases(fn, stats):
+    """a parameter of an inlined helper that was bound to a plain local of the caller (`state__i4 = state`) and is never
+    rebound is that local: its name is used instead (also inside comprehensions and attribute stores)"""
+    import re as _re
+    changed = True
+    while changed:
+        changed = False
+        po = {}
+
+        def w(n):
+            po[id(n)] = len(po)
+            for c in ast.iter_child_nodes(n):
+                w(c)
+        w(fn)
+        params = {a_.arg for a_ in fn.args.args}
+        for owner in ast.walk(fn):
+            for field in ('body', 'orelse', 'finalbody'):
+                blk = getattr(owner, field, None)
+                if not isinstance(blk, list) or not blk or not isinstance(blk[0], ast.stmt):
+                    continue
+                for c in blk:
+                    if not (isinstance(c, ast.Assign) and len(c.targets) == 1 and isinstance(c.targets[0], ast.Name) and isinstance(c.value, ast.Name)
+                            and _re.search(r'__i[0-9]+$', c.targets[0].id) and c.targets[0].id != c.value.id):
+                        continue
+                    a, b = c.targets[0].id, c.value.id
+                    if sum(1 for x in ast.walk(fn) if isinstance(x, ast.Name) and x.id == a and isinstance(x.ctx, (ast.Store, ast.Del))) != 1:
+                        continue
+                    # b is not rebound after this point (loops: not rebound anywhere inside an enclosing loop either)
+                    b_stores = [x for x in ast.walk(fn) if isinstance(x, ast.Name) and x.id == b and isinstance(x.ctx, (ast.Store, ast.Del))]
+                    lp = getattr(c, '_parent', None)
+                    in_loop = None
+                    q = owner
+                    while q is not None and q is not fn:
+                        if isinstance(q, (ast.For, ast.While)):
+                            in_loop = q
+                        q = getattr(q, '_parent', None)
+                    if any(po[id(x)] > po[id(c)] for x in b_stores):
+                        continue
+                    if in_loop is not None and any(any(y is x for y in ast.walk(in_loop)) for x in b_stores):
+                        continue
+                    if any(po[id(x)] < po[id(c)] for x in ast.walk(fn) if isinstance(x, ast.Name) and x.id == a and x is not c.targets[0]):
+                        continue
+                    for x in ast.walk(fn):
+                        if isinstance(x, ast.Name) and x.id == a:
+                            x.id = b
+                    blk.remove(c)
+                    if not blk:
+                        blk.append(ast.copy_location(ast.Pass(), c))
+                    stats['aliases_coalesced'] = stats.get('aliases_coalesced', 0) + 1
+                    changed = True
+                    break
+                if changed:
+                    break
+            if changed:
+                break
+
+
 def merge_accumulators(fn, stats):
     """N10: a boolean accumulator local to an inlined helper,
 
@@ -1597,6 +1686,180 @@ def merge_accumulators(fn, stats):
             if changed:
                 break
     ast.fix_missing_locations(fn)
+
+
+def resolve_function_table(tree, fn, stats):
+    """N11: dispatch through a constant table of functions,
+
+        h = T.get(K, default)                 if K == 'a': fa(args)
+        h(args)                      ==>      elif K == 'b': fb(args)
+                                              else: default(args)
+
+    T a module-level dict (bound once, never changed) whose values are names of module-level functions, h used nowhere
+    else, K pure.  Makes the callees visible to the inliner."""
+    funcs = {n.name for n in tree.body if isinstance(n, ast.FunctionDef)}
+    tabs = {}
+    for st in tree.body:
+        if isinstance(st, ast.Assign) and len(st.targets) == 1 and isinstance(st.targets[0], ast.Name) and isinstance(st.value, ast.Dict) and st.value.keys \
+                and all(isinstance(k, ast.Constant) and isinstance(k.value, (str, int)) for k in st.value.keys) \
+                and all(isinstance(v, ast.Name) and v.id in funcs for v in st.value.values):
+            nm = st.targets[0].id
+            n_store = sum(1 for x in ast.walk(tree) if isinstance(x, ast.Name) and x.id == nm and isinstance(x.ctx, (ast.Store, ast.Del)))
+            touched = any((isinstance(x, (ast.Subscript, ast.Attribute)) and isinstance(x.ctx, (ast.Store, ast.Del)) and isinstance(x.value, ast.Name) and x.value.id == nm)
+                          or (isinstance(x, ast.Call) and isinstance(x.func, ast.Attribute) and isinstance(x.func.value, ast.Name) and x.func.value.id == nm
+                              and x.func.attr not in ('get', 'keys', 'values', 'items')) for x in ast.walk(tree))
+            if n_store == 1 and not touched:
+                tabs[nm] = st.value
+    if not tabs:
+        return
+    for owner in ast.walk(fn):
+        for field in ('body', 'orelse', 'finalbody'):
+            blk = getattr(owner, field, None)
+            if not isinstance(blk, list) or len(blk) < 2 or not isinstance(blk[0], ast.stmt):
+                continue
+            i = 0
+            while i + 1 < len(blk):
+                a, b = blk[i], blk[i + 1]
+                i += 1
+                if not (isinstance(a, ast.Assign) and len(a.targets) == 1 and isinstance(a.targets[0], ast.Name) and isinstance(a.value, ast.Call)
+                        and isinstance(a.value.func, ast.Attribute) and a.value.func.attr == 'get' and isinstance(a.value.func.value, ast.Name)
+                        and a.value.func.value.id in tabs and 1 <= len(a.value.args) <= 2 and not a.value.keywords and is_pure(a.value.args[0])):
+                    continue
+                h = a.targets[0].id
+                default = a.value.args[1] if len(a.value.args) == 2 else None
+                if default is not None and not (isinstance(default, ast.Name) and default.id in funcs):
+                    continue
+                call = b.value if isinstance(b, ast.Expr) else (b.value if isinstance(b, (ast.Assign, ast.AugAssign)) else None)
+                if not (isinstance(call, ast.Call) and isinstance(call.func, ast.Name) and call.func.id == h):
+                    continue
+                if sum(1 for x in ast.walk(fn) if isinstance(x, ast.Name) and x.id == h) != 2:
+                    continue
+                if default is None:
+                    continue      # (a missing key would make h None: not a total dispatch)
+                key = a.value.args[0]
+                d = tabs[a.value.func.value.id]
+                chain = None
+
+                def with_callee(name):
+                    st2 = clone(b)
+                    for x in ast.walk(st2):
+                        if isinstance(x, ast.Call) and isinstance(x.func, ast.Name) and x.func.id == h:
+                            x.func = ast.copy_location(ast.Name(id=name, ctx=ast.Load()), x.func)
+                    return st2
+                chain = [with_callee(default.id)]
+                for k, v in reversed(list(zip(d.keys, d.values))):
+                    node = ast.If(test=ast.Compare(left=clone(key), ops=[ast.Eq()], comparators=[ast.Constant(value=k.value)]),
+                                  body=[with_callee(v.id)], orelse=chain)
+                    chain = [ast.copy_location(node, b)]
+                blk[i - 1:i + 1] = chain
+                stats['function_tables_expanded'] = stats.get('function_tables_expanded', 0) + 1
+    # a table that is not read any more has been expanded at every use: its definition goes (and with it the last
+    # references to the handlers, which the inliner has placed at their call sites)
+    for nm in list(tabs):
+        if not any(isinstance(x, ast.Name) and x.id == nm and isinstance(x.ctx, ast.Load) for x in ast.walk(tree)):
+            tree.body[:] = [st for st in tree.body if not (isinstance(st, ast.Assign) and len(st.targets) == 1 and isinstance(st.targets[0], ast.Name)
+                                                           and st.targets[0].id == nm)]
+            stats.setdefault('tables_dropped', []).append(nm)
+    ast.fix_missing_locations(fn)
+
+
+def eliminate_holders(tree, fn, new_classes, stats):
+    """N12: a local object of a small holder class introduced by a refactoring (only an __init__ of plain assignments,
+    not in the reference list) that never leaves the function - every use is `v.attr` - is replaced by one local per
+    attribute: the constructor is expanded to its assignments and `v.attr` becomes the local `attr` (or `v__attr` when
+    that name is taken).  What the rules then see is the code as it reads with plain locals."""
+    changed_any = False
+    for owner in ast.walk(fn):
+        for field in ('body', 'orelse', 'finalbody'):
+            blk = getattr(owner, field, None)
+            if not isinstance(blk, list) or not blk or not isinstance(blk[0], ast.stmt):
+                continue
+            for i, st in enumerate(list(blk)):
+                if not (isinstance(st, ast.Assign) and len(st.targets) == 1 and isinstance(st.targets[0], ast.Name) and isinstance(st.value, ast.Call)
+                        and isinstance(st.value.func, ast.Name) and st.value.func.id in new_classes):
+                    continue
+                v = st.targets[0].id
+                cls = new_classes[st.value.func.id]
+                init = [m for m in cls.body if isinstance(m, ast.FunctionDef)]
+                if len(init) != 1 or init[0].name != '__init__':
+                    continue
+                init = init[0]
+                # every occurrence of v: this store, or the base of an attribute access
+                occ = [x for x in ast.walk(fn) if isinstance(x, ast.Name) and x.id == v]
+                attr_bases = {id(x.value) for x in ast.walk(fn) if isinstance(x, ast.Attribute) and isinstance(x.value, ast.Name) and x.value.id == v}
+                if any(id(x) not in attr_bases and x is not st.targets[0] for x in occ):
+                    continue
+                if sum(1 for x in occ if isinstance(x.ctx, ast.Store)) != 1:
+                    continue
+                body = _doc_stripped(init.body)
+                if not all(isinstance(b_, ast.Assign) for b_ in body):
+                    continue
+                b = _bind(init, st.value, True)
+                if b is None or any(not is_pure(a_) for _p, a_ in b):
+                    continue
+                amap = dict(b)
+                selfname = init.args.args[0].arg
+                used = {x.id for x in ast.walk(fn) if isinstance(x, ast.Name)} | {a_.arg for a_ in fn.args.args}
+                out = []
+                ok = True
+                for b_ in clone(body):
+                    class S(ast.NodeTransformer):
+                        def visit_Name(self, n_):
+                            if n_.id == selfname:
+                                return ast.copy_location(ast.Name(id=v, ctx=n_.ctx), n_)
+                            if n_.id in amap and isinstance(n_.ctx, ast.Load):
+                                return ast.copy_location(clone(amap[n_.id]), n_)
+                            if n_.id in amap:
+                                nonlocal ok
+                                ok = False
+                            return n_
+                    out.append(S().visit(b_))
+                if not ok:
+                    continue
+                for x in out:
+                    ast.copy_location(x, st)
+                    for y in ast.walk(x):
+                        if hasattr(y, 'lineno'):
+                            ast.copy_location(y, st)
+                blk[blk.index(st):blk.index(st) + 1] = out
+                # one local per attribute
+                attrs = sorted({x.attr for x in ast.walk(fn) if isinstance(x, ast.Attribute) and isinstance(x.value, ast.Name) and x.value.id == v})
+                names = {}
+                for at in attrs:
+                    # `v.at = at` (the constructor keeps its argument): the attribute is that local
+                    same = [x for x in out if isinstance(x, ast.Assign) and any(isinstance(t_, ast.Attribute) and t_.attr == at for t_ in x.targets)
+                            and isinstance(x.value, ast.Name) and x.value.id == at]
+                    if at not in used or same:
+                        names[at] = at
+                    else:
+                        names[at] = '%s__%s' % (v, at)
+
+                class R(ast.NodeTransformer):
+                    def visit_Attribute(self, n_):
+                        self.generic_visit(n_)
+                        if isinstance(n_.value, ast.Name) and n_.value.id == v:
+                            return ast.copy_location(ast.Name(id=names[n_.attr], ctx=n_.ctx), n_)
+                        return n_
+                R().visit(fn)
+                # x = x  left by `v.x = x`
+                for o2 in ast.walk(fn):
+                    for f2 in ('body', 'orelse', 'finalbody'):
+                        b2 = getattr(o2, f2, None)
+                        if isinstance(b2, list) and b2 and isinstance(b2[0], ast.stmt):
+                            keep = [x for x in b2 if not (isinstance(x, ast.Assign) and len(x.targets) == 1 and isinstance(x.targets[0], ast.Name)
+                                                          and isinstance(x.value, ast.Name) and x.value.id == x.targets[0].id)]
+                            if len(keep) != len(b2):
+                                b2[:] = keep or [ast.copy_location(ast.Pass(), b2[0])]
+                stats['holders_eliminated'] = stats.get('holders_eliminated', 0) + 1
+                changed_any = True
+                break
+            if changed_any:
+                break
+        if changed_any:
+            break
+    if changed_any:
+        ast.fix_missing_locations(fn)
+        eliminate_holders(tree, fn, new_classes, stats)
 
 
 # ---------------------------------------------------------------------------
@@ -1764,14 +2027,28 @@ def _used_elsewhere(pkg_dir, modname, name):
 
 
 def normalize_module(modname, tree, stats, pkg_dir=None):
-    funcs = module_functions(tree)
-    base = baseline_funcs().get(modname)
     # N1 first: the other passes then see canonical tests
     _Canon(stats).visit(tree)
     propagate_module_constants(tree, stats)
+    # two passes: what the first one expands (a table of handlers, a holder object) gives the second one calls to inline
+    for _outer in range(2):
+        before = tuple(stats.get(k, 0) for k in ('function_tables_expanded', 'holders_eliminated', 'table_dispatch_expanded', 'getattr_const'))
+        _normalize_pass(modname, tree, stats, pkg_dir)
+        propagate_module_constants(tree, stats)
+        if tuple(stats.get(k, 0) for k in ('function_tables_expanded', 'holders_eliminated', 'table_dispatch_expanded', 'getattr_const')) == before:
+            break
+    _Canon(stats).visit(tree)
+    ast.fix_missing_locations(tree)
+    return tree
+
+
+def _normalize_pass(modname, tree, stats, pkg_dir):
+    funcs = module_functions(tree)
+    base = baseline_funcs().get(modname)
     classes0 = {n.name: n for n in tree.body if isinstance(n, ast.ClassDef)}
     for q, f, _m in funcs:
         resolve_name_dispatch(tree, classes0.get(q.split('.')[0]) if '.' in q else None, f, stats)
+        resolve_function_table(tree, f, stats)
     if base is not None:
         new = [(q, f, m) for q, f, m in funcs if q not in base]
         if new:
@@ -1800,6 +2077,15 @@ def normalize_module(modname, tree, stats, pkg_dir=None):
                                 owner.body.remove(hf)
                                 stats.setdefault('helpers_dropped', []).append('%s:%s' % (modname, nm))
                 funcs = module_functions(tree)
+    # holder objects of classes the reference list does not know
+    new_classes = {}
+    if base is not None:
+        new_classes = {c.name: c for c in tree.body if isinstance(c, ast.ClassDef) and not any(q.startswith(c.name + '.') for q in base)
+                       and all(isinstance(b_, ast.Name) and b_.id == 'object' for b_ in c.bases)}
+        if new_classes:
+            for _q, f, _m in funcs:
+                if _q.split('.')[0] not in new_classes:
+                    eliminate_holders(tree, f, new_classes, stats)
     # class mod-summaries for copy propagation
     by_cls = {}
     classes = {n.name: n for n in tree.body if isinstance(n, ast.ClassDef)}
@@ -1832,16 +2118,16 @@ def normalize_module(modname, tree, stats, pkg_dir=None):
             unroll_constant_loops(f, stats)
             _Canon(stats).visit(f)
             forward_temps(f, stats)
+            coalesce_aliases(f, stats)
             try:
                 copy_propagate(f, ms, stats)
             except RecursionError:
                 pass
             thread_flags(f, stats)
             merge_accumulators(f, stats)
+            if new_classes and q.split('.')[0] not in new_classes:
+                eliminate_holders(tree, f, new_classes, stats)
             cur = ast.dump(f)
             if cur == prev:
                 break
             prev = cur
-    _Canon(stats).visit(tree)
-    ast.fix_missing_locations(tree)
-    return tree
